@@ -398,7 +398,7 @@ def c16e(ctx):
             body = ast.Module(body=lp.body, type_ignores=[])
             uses = [x for x in ast.walk(body) if isinstance(x, ast.Attribute) and x.attr == 'coord' and unparse(x.value) == tv
                     and not isinstance(getattr(x, '_parent', None), ast.Compare)]
-            uses += [x for x in ast.walk(body) if is_call(x, 'self._load_tile') and x.args and unparse(x.args[-1]) == tv]
+            uses += [x for x in ast.walk(body) if is_call(x, 'self._load_tile') and any(unparse(a_) == tv for a_ in x.args)]
             none_atom = (lambda tv: lambda at: at.op == '==' and ('%s.coord' % tv) in at.text and 'None' in at.text)(tv)
             ok = ok and all(g.guarded(g.node_for(x), none_atom, False) for x in uses)
             uses_all += uses
